@@ -147,6 +147,17 @@ pub fn exec(a: &[&str]) -> String {
             }
             format!("{kind} {out} {}", rt(want, &[&out]))
         }
+        // prev <hex> -> error-message preview (stream_owned_value_json_jq) of from_number_bytes(hex)
+        "prev" => {
+            let Some(s) = text_of_hex(a[1]) else { return "NON-UTF8".into() };
+            let v = OwnedValue::from_number_bytes(s.as_bytes());
+            if !is_literal(&v) {
+                return "-".into();
+            }
+            let mut o = String::new();
+            let _ = succinctly::jq::stream::stream_owned_value_json_jq(&v, &mut o);
+            o
+        }
         // norm <hex> <cap|-> -> normalize_extreme_literal_mantissa
         "norm" => {
             let Some(s) = text_of_hex(a[1]) else { return "NON-UTF8".into() };
@@ -519,6 +530,9 @@ pub fn gen(tier: Tier, r: &mut Rng, emit: &mut dyn FnMut(String)) {
         if i % 2 == 0 {
             emit_fnb(emit, &s);
         }
+        if i % 8 == 1 {
+            emit(format!("C10 prev {}", hex_text(&s)));
+        }
         if i % 4 == 0 && s.contains(['e', 'E']) && s.parse::<f64>().is_ok() {
             let cap = match r.below(4) {
                 0 => "-".to_string(),
@@ -568,6 +582,9 @@ pub fn gen(tier: Tier, r: &mut Rng, emit: &mut dyn FnMut(String)) {
                 _ => format!("{}.{}e5000", &body[..1], &body[1..]), // overflow, scientific
             };
             emit_lit(emit, &s);
+            if shape == 0 || shape == 3 {
+                emit(format!("C10 prev {}", hex_text(&s)));
+            }
         }
     }
 }
